@@ -5,7 +5,7 @@
 From Coq Require Import QArith ZArith List Bool Arith.
 Import ListNotations.
 From PV Require Import Lib.WLS BSpline.Eval BSpline.EvalProofs BSpline.CoxDeBoor BSpline.BasisProofs
-  BSpline.KnotsProofs BSpline.PermProofs BSpline.ActionProofs Generated.BSpline BSpline.GenBridge C08.Model C08.Proofs.
+  BSpline.KnotsProofs BSpline.PermProofs BSpline.ActionProofs BSpline.WindowProofs Generated.BSpline BSpline.GenBridge C08.Model C08.Proofs.
 Open Scope Q_scope.
 
 (* ---- the basis: non-negative, sums to one (every order, every knot vector, loop invariant of BSPLVN) *)
@@ -256,6 +256,48 @@ Qed.
 Print Assumptions C08_generated_action_value.
 
 (* non-vacuity: a cubic knot vector built by the nbkpts option satisfies the hypotheses; basis sums to one *)
+(* ---- round 5 *)
+(* locality: the value at x in (t_l, t_{l+1}] is the one-interval evaluation on the window of the 2k knots t_{l-k+1} .. t_{l+k}
+   and the k coefficients c_{l-k+1} .. c_l, and that is the Cox-de Boor spline of the window AND of the whole knot vector.
+   (What lets the check judge splines with > 100000 intervals point by point: C08.Model.CWin.) *)
+Theorem C08_value_is_local : forall gb k c x l, nondecr gb -> (1 <= k)%nat -> (2 * k <= length gb)%nat ->
+  length c = (length gb - k)%nat -> (k - 1 <= l)%nat -> (l + k < length gb)%nat ->
+  nthQ gb l < x -> x <= nthQ gb (S l) ->
+  eval1 gb k c x = eval_at (window l k gb) k (cwindow l k c) x (k - 1) /\
+  eval1 gb k c x == spline_left (window l k gb) (cwindow l k c) k x /\
+  spline_left gb c k x == spline_left (window l k gb) (cwindow l k c) k x.
+Proof. exact eval1_window. Qed.
+Print Assumptions C08_value_is_local.
+
+(* the interval search returns THE left-open interval that holds x *)
+Theorem C08_intrv1_unique : forall gb k x l, nondecr gb -> (1 <= k)%nat -> (2 * k <= length gb)%nat ->
+  (k - 1 <= l)%nat -> (l + k < length gb)%nat -> nthQ gb l < x -> x <= nthQ gb (S l) -> intrv1 gb k x = l.
+Proof. exact intrv1_unique. Qed.
+Print Assumptions C08_intrv1_unique.
+
+(* generated on every run: the masked-breakpoint gap logic of value() and the neighbour comparison of pydl.uniq as action()
+   uses it (exact inequality of an item and its successor) *)
+Theorem C08_generated_gaps_uniq : forall bk bmask k x a b r ia ib,
+  gaps bk (a :: b :: r) =
+    (if bs_value_gap_test a b then (nthQ bk a, nthQ bk (bs_value_gap_hi_index b)) :: gaps bk (b :: r) else gaps bk (b :: r)) /\
+  point_mask bk bmask k x =
+    (in_range_mask (select bmask bk) k x &&
+     forallb (fun g => negb (bs_value_gap_inside x (fst g) (snd g))) (gaps bk (good_positions bmask 0))) /\
+  (bs_uniq_differs (Z.of_nat ia) (Z.of_nat ib) = negb (ia =? ib)%nat /\ bs_uniq_shift = (-1)%Z).
+Proof.
+  exact (fun bk bmask k x a b r ia ib =>
+    conj (gen_value_gaps bk a b r) (conj (gen_value_gap_inside bk bmask k x) (gen_uniq_differs ia ib))).
+Qed.
+Print Assumptions C08_generated_gaps_uniq.
+
+(* non-vacuity of the locality theorem: a cubic spline on 12 knots, x = 11/2 in (t_5, t_6], window = knots 2 .. 9 *)
+Example C08_example_window :
+  let gb := [0; 1; 2; 3; 4; 5; 6; 7; 8; 9; 10; 11] in
+  let c := [3; -1; 4; 1; -5; 9; 2; -6] in
+  Qeq_bool (eval1 gb 4 c (11 # 2)) (eval_at (window 5 4 gb) 4 (cwindow 5 4 c) (11 # 2) 3) &&
+  Qeq_bool (eval1 gb 4 c (11 # 2)) (splineq_left [2; 3; 4; 5; 6; 7; 8; 9] [4; 1; -5; 9] 4 (11 # 2)) = true.
+Proof. vm_compute. reflexivity. Qed.
+
 Example C08_example :
   let xs := [0; 1#2; 3; 9] in
   let gb := knots_of_option (ONbkpts 4) xs 4 1 in
